@@ -313,7 +313,11 @@ func (m *mavenExtension) compare(e extension) int {
 			if a.sep != b.sep {
 				return int(a.sep) - int(b.sep) // Magic: '-'+1 = '.'.
 			}
-			return sgn64(a.int, b.int)
+			// Equal numbers may be spelled differently ("01" vs "1").
+			if c := sgn64(a.int, b.int); c != 0 {
+				return c
+			}
+			continue
 		}
 		if a.sep != b.sep {
 			return int(b.sep) - int(a.sep) // Note: reversed compared to numeric. Nice.
